@@ -8,9 +8,11 @@ package main
 import (
 	"archive/zip"
 	"bytes"
+	"compress/flate"
 	"compress/gzip"
 	"encoding/json"
 	"fmt"
+	"hash/crc32"
 	"io"
 	"net/http"
 	"os"
@@ -72,6 +74,25 @@ func (s Scenario) srvMode() string {
 	return ""
 }
 
+func (s Scenario) word(prefix string) string {
+	for _, w := range strings.Split(s.Var, ",") {
+		if strings.HasPrefix(w, prefix) {
+			return strings.TrimPrefix(w, prefix)
+		}
+	}
+	return ""
+}
+
+// overlap: "same" (both writers have the same destination) or "other" (two
+// destinations with the same base name in different directories), "" otherwise.
+func (s Scenario) overlap() string { return s.word("overlap=") }
+
+// damage is the damage done to the archive ("" = intact archive).
+func (s Scenario) damage() string { return s.word("dmg=") }
+
+// mayFail: the input is such that the operation may (or must) return an error.
+func (s Scenario) mayFail() bool { return s.srvMode() != "" || s.damage() != "" }
+
 func (s Scenario) has(word string) bool {
 	for _, w := range strings.Split(s.Var, ",") {
 		if w == word {
@@ -89,6 +110,7 @@ type Spec struct {
 	URL    string   `json:"url"`    // httptest server of the runner
 	RawURL string   `json:"rawurl"` // raw TCP server of the runner that can misbehave (var word srv=<mode>)
 	Signet string   `json:"signet"` // base58 recipient signet for signature verification
+	Writer string   `json:"writer"` // overlapping-writer scenarios: "A" (stopped and continued) or "B" (runs in between)
 }
 
 // Layout are the paths of one run (pure function of the spec).
@@ -115,6 +137,15 @@ func layout(sp *Spec) Layout {
 		l.SysTmp = filepath.Join(sp.Root, "no-such-tmp")
 	default:
 		l.SysTmp = filepath.Join(sp.Root, "systmp")
+	}
+	if ov := sp.Sc.overlap(); ov != "" {
+		sub := "a"
+		if sp.Writer == "B" && ov == "other" {
+			sub = "b"
+		}
+		l.Key = sub + "/x"
+		l.Dest = filepath.Join(l.Dst, sub, "x")
+		return l
 	}
 	switch sp.Sc.Op {
 	case opWriteFile, opCreate, opCopy, opReplace:
@@ -184,9 +215,9 @@ func oldContent(old string) ([]byte, os.FileMode) {
 	return nil, 0
 }
 
-func makeRecord(key, size string) record.Record {
+func makeRecord(key, tag, size string) record.Record {
 	meta := &record.Meta{Created: 1700000000, Modified: 1700000001}
-	w, err := record.NewWrapper("c17:"+key, meta, dsd.RAW, content("NEW", size))
+	w, err := record.NewWrapper("c17:"+key, meta, dsd.RAW, content(tag, size))
 	if err != nil {
 		panic(err)
 	}
@@ -208,15 +239,65 @@ func zipEntries(size string) []struct {
 	}
 }
 
-func makeZip(size string) []byte {
+// cutPoint: where the data of a damaged archive ends (suffix of the damage word).
+func cutPoint(dmg string, n int) int {
+	k := n / 2
+	switch {
+	case strings.HasSuffix(dmg, "-cut-0"):
+		k = 0
+	case strings.HasSuffix(dmg, "-cut-1"):
+		k = 1
+	case strings.HasSuffix(dmg, "-cut-5"):
+		k = 5
+	case strings.HasSuffix(dmg, "-cut-allbut1"):
+		k = n - 1
+	case strings.HasSuffix(dmg, "-cut-allbut8"):
+		k = n - 8
+	}
+	if k < 0 {
+		k = 0
+	}
+	if k > n {
+		k = n
+	}
+	return k
+}
+
+// makeZip builds the 3-entry archive. With dmg "deflate-cut-*" or
+// "stored-cut-*" the directory is intact and announces the full entry, but the
+// data of the first entry ends early (truncated deflate stream / stored data
+// shorter than announced).
+func makeZip(size, dmg string) []byte {
 	var b bytes.Buffer
 	zw := zip.NewWriter(&b)
-	for _, e := range zipEntries(size) {
+	for i, e := range zipEntries(size) {
 		h := &zip.FileHeader{Name: e.Name, Method: zip.Deflate}
 		if strings.HasSuffix(e.Name, "/") {
 			h.SetMode(os.ModeDir | 0o755)
 		} else {
 			h.SetMode(0o644)
+		}
+		if i == 0 && dmg != "" {
+			raw := e.Data
+			if strings.HasPrefix(dmg, "deflate-") {
+				var cb bytes.Buffer
+				fw, _ := flate.NewWriter(&cb, flate.DefaultCompression)
+				_, _ = fw.Write(e.Data)
+				_ = fw.Close()
+				raw = cb.Bytes()
+			} else {
+				h.Method = zip.Store
+			}
+			raw = raw[:cutPoint(dmg, len(raw))]
+			h.CRC32 = crc32.ChecksumIEEE(e.Data)
+			h.UncompressedSize64 = uint64(len(e.Data))
+			h.CompressedSize64 = uint64(len(raw))
+			w, err := zw.CreateRaw(h)
+			if err != nil {
+				panic(err)
+			}
+			_, _ = w.Write(raw)
+			continue
 		}
 		w, err := zw.CreateHeader(h)
 		if err != nil {
@@ -230,12 +311,65 @@ func makeZip(size string) []byte {
 	return b.Bytes()
 }
 
-func makeGzip(size string) []byte {
+// makeGzip compresses the new content; with dmg "gz-cut-*" the file ends early.
+func makeGzip(size, dmg string) []byte {
 	var b bytes.Buffer
 	zw := gzip.NewWriter(&b)
 	_, _ = zw.Write(content("NEW", size))
 	_ = zw.Close()
-	return b.Bytes()
+	out := b.Bytes()
+	if dmg != "" {
+		out = out[:cutPoint(dmg, len(out))]
+	}
+	return out
+}
+
+// writerContent: what this writer writes (overlapping writers write different
+// contents of different lengths).
+func writerContent(sp *Spec) (tag, size string) {
+	if sp.Writer == "B" {
+		return "NEWB", sizeB(sp.Sc)
+	}
+	return "NEW", sp.Sc.New
+}
+
+func sizeB(sc Scenario) string {
+	if sc.New == "small" {
+		return "medium"
+	}
+	return "small"
+}
+
+// newBytesOf is the complete content the writer publishes.
+func newBytesOf(sp *Spec) []byte {
+	tag, size := writerContent(sp)
+	if sp.Sc.Op == opPut {
+		b, err := makeRecord(layout(sp).Key, tag, size).MarshalRecord(nil)
+		if err != nil {
+			panic(err)
+		}
+		return b
+	}
+	return content(tag, size)
+}
+
+// prepareOverlap creates the initial state of an overlapping-writers run and
+// returns the expectations of writer A and writer B.
+func prepareOverlap(spA, spB *Spec) (exA, exB *Expect) {
+	la, lb := layout(spA), layout(spB)
+	mustMkdir(la.Dst, 0o755)
+	mustMkdir(filepath.Join(la.Dst, "a"), 0o755)
+	mustMkdir(filepath.Join(la.Dst, "b"), 0o755)
+	mustMkdir(la.SysTmp, 0o755)
+	mustMkdir(la.Explicit, 0o755)
+	locs := []string{filepath.Join(la.Dst, "a"), filepath.Join(la.Dst, "b"), la.SysTmp, la.Explicit}
+	if data, mode := oldContent(spA.Sc.Old); data != nil {
+		mustWrite(filepath.Join(la.Dst, "a", "x"), data, mode)
+		mustWrite(filepath.Join(la.Dst, "b", "x"), data, mode)
+	}
+	exA = &Expect{Dest: la.Dest, NewKind: "file", SingleFile: true, NewBytes: newBytesOf(spA), TempLocs: locs}
+	exB = &Expect{Dest: lb.Dest, NewKind: "file", SingleFile: true, NewBytes: newBytesOf(spB), TempLocs: locs}
+	return exA, exB
 }
 
 // Expect is the oracle's view of a scenario.
@@ -279,6 +413,12 @@ func mustMkdir(path string, mode os.FileMode) {
 // prepare creates the initial state of a run below sp.Root (and sp.Other) and
 // returns what the oracle expects. Runs in the runner process, never under strace.
 func prepare(sp *Spec) *Expect {
+	if sp.Sc.overlap() != "" { // trace run of writer A alone
+		spB := *sp
+		spB.Writer = "B"
+		exA, _ := prepareOverlap(sp, &spB)
+		return exA
+	}
 	l := layout(sp)
 	sc := sp.Sc
 	mustMkdir(l.Dst, 0o755)
@@ -318,7 +458,7 @@ func prepare(sp *Spec) *Expect {
 		if !sc.has("newdir1") && !sc.has("newdir2") {
 			putOld()
 		}
-		b, err := makeRecord(l.Key, sc.New).MarshalRecord(nil)
+		b, err := makeRecord(l.Key, "NEW", sc.New).MarshalRecord(nil)
 		if err != nil {
 			panic(err)
 		}
@@ -338,7 +478,7 @@ func prepare(sp *Spec) *Expect {
 		ex.TempTrees = []string{l.RegTmp}
 	case opUnpackZip:
 		mustMkdir(l.RegTmp, 0o700)
-		mustWrite(l.Archive, makeZip(sc.New), 0o644)
+		mustWrite(l.Archive, makeZip(sc.New, sc.damage()), 0o644)
 		ex.NewKind, ex.SingleFile = "dir", false
 		ex.NewTree = map[string][]byte{}
 		for _, e := range zipEntries(sc.New) {
@@ -360,7 +500,7 @@ func prepare(sp *Spec) *Expect {
 		ex.TempTrees = []string{l.RegTmp}
 	case opUnpackFile:
 		mustMkdir(l.RegTmp, 0o700)
-		mustWrite(l.Archive, makeGzip(sc.New), 0o644)
+		mustWrite(l.Archive, makeGzip(sc.New, sc.damage()), 0o644)
 		ex.NewBytes = content("NEW", sc.New)
 		ex.TempLocs = []string{filepath.Dir(l.Dest)}
 		ex.TempTrees = []string{l.RegTmp}
@@ -413,9 +553,10 @@ func driverMain(specFile string) int {
 
 	// everything that is not the operation itself happens before the begin marker
 	var op func() error
+	tag, size := writerContent(&sp)
 	switch sc.Op {
 	case opWriteFile:
-		data := content("NEW", sc.New)
+		data := content(tag, size)
 		op = func() error { return renameio.WriteFile(l.Dest, data, 0o644) }
 	case opSymlink:
 		op = func() error { return renameio.Symlink("target-new", l.Dest) }
@@ -432,7 +573,7 @@ func driverMain(specFile string) int {
 		}
 		switch sc.Op {
 		case opCreate:
-			data := content("NEW", sc.New)
+			data := content(tag, size)
 			op = func() error { return utils.CreateAtomic(l.Dest, bytes.NewReader(data), opts) }
 		case opCopy:
 			op = func() error { return utils.CopyFileAtomic(l.Dest, l.Src, opts) }
@@ -446,7 +587,7 @@ func driverMain(specFile string) int {
 			return 3
 		}
 		if sc.Op == opPut {
-			r := makeRecord(l.Key, sc.New)
+			r := makeRecord(l.Key, tag, size)
 			op = func() error { _, err := db.Put(r); return err }
 		} else {
 			op = func() error { return db.Delete(l.Key) }
